@@ -25,6 +25,7 @@ type caseSpec struct {
 	sp       *spend
 	expected string // "", "OK", "FAIL" or a Core error class
 	whole    bool   // all inputs of the transaction (runtx / coretx)
+	multi    bool   // additionally the shared-objects op
 }
 
 // ---- short-form script syntax of Core's JSON vectors
@@ -394,6 +395,9 @@ func emitSpends(g *core.Gen, cs []caseSpec) {
 			}
 			if !skip {
 				emit(g, "api:validate-tx", nontrivial, fmt.Sprintf("C06 valtx %s %s", bases[i], oracles[i]))
+			}
+			if c.multi {
+				emit(g, "api:shared-objects", nontrivial, fmt.Sprintf("C06 multi %s %s", bases[i], oracles[i]))
 			}
 		} else {
 			if i%12 == 0 {
